@@ -40,13 +40,15 @@ Lemma infid_fid2_entry d na nk no (Lm Rm : A3r) idx (sp : spectrumR) omega i j :
   sumn' nk (fun k => Gamma Lm Rm idx sp no omega i j k k) / INR d.
 Proof.
   intros Hidx Hom Hi Hj Hc. rewrite nth_infid_of_ff by auto.
-  unfold Gamma. unfold Rdiv at 2. rewrite sumn_mul_r. rewrite <- trapz_w_sum.
-  rewrite (trapz_w_ext no _ (fun o => sumn' nk (fun k =>
-     fst (cmul' (cmul' (cconj' (a3get RO Lm (sel idx i) k o)) (spec_at RO sp i j o)) (a3get RO Rm (sel idx j) k o))))).
+  set (g := fun k o => fst (cmul' (cmul' (cconj' (a3get RO Lm (sel idx i) k o)) (spec_at RO sp i j o)) (a3get RO Rm (sel idx j) k o))).
+  replace (sumn' nk (fun k => Gamma Lm Rm idx sp no omega i j k k))
+    with (trapz_w no (fun o => sumn' nk (fun k => g k o)) omega / (2 * PI))
+    by (rewrite trapz_w_sum; unfold Rdiv; rewrite <- sumn_mul_r; reflexivity).
+  rewrite (trapz_w_ext no _ (fun o => sumn' nk (fun k => g k o))).
   unfold Rdiv. rewrite Rinv_mult. ring.
   intros o Ho. unfold integrand_fid, ff_fidelity2.
   rewrite a3get_a3build by (auto; apply Hidx; auto).
-  unfold cre. rewrite <- csumn_mul_r, csumn_re. apply sumn_ext. intros k _. f_equal. ring.
+  unfold cre. rewrite <- csumn_mul_r, csumn_re. apply sumn_ext. intros k _. unfold g. f_equal. ring.
 Qed.
 
 Theorem pc_infid_sum d na nk no (Bpc : list A3r) idx (sp : spectrumR) omega i j :
@@ -69,8 +71,15 @@ Proof.
   rewrite (sumn_ext nk _ (fun k => sumn' (length Bpc) (fun g => sumn' (length Bpc) (fun h =>
      Gamma (nth g Bpc []) (nth h Bpc []) idx sp no omega i j k k)))).
   2:{ intros k Hk. apply (pc_decay_sum Bpc na nk no); auto; apply Hidx; auto. }
-  unfold Rdiv. rewrite <- sumn_mul_r. rewrite sumn_swap. apply sumn_ext. intros g _.
-  rewrite <- sumn_mul_r. rewrite sumn_swap. apply sumn_ext. intros h _. rewrite sumn_mul_r. reflexivity.
+  unfold Rdiv.
+  rewrite (sumn_ext (length Bpc) _ (fun g => sumn' (length Bpc) (fun h =>
+     sumn' nk (fun k => Gamma (nth g Bpc []) (nth h Bpc []) idx sp no omega i j k k)) * / INR d))
+    by (intros; apply sumn_mul_r).
+  rewrite sumn_mul_r. f_equal.
+  rewrite (sumn_ext (length Bpc) _ (fun g => sumn' nk (fun k => sumn' (length Bpc) (fun h =>
+     Gamma (nth g Bpc []) (nth h Bpc []) idx sp no omega i j k k))))
+    by (intros; apply sumn_swap).
+  apply sumn_swap.
 Qed.
 
 (* ---------- positive semidefinite spectra ---------- *)
@@ -112,13 +121,16 @@ Proof.
                          (cmul' (cmul' (cmul' (rc (t k)) (cconj' (a k))) s) Cc))
                   (cmul' (cmul' A s) (cmul' (rc (t k)) (c k))))
            (cmul' (rc (t k * t k)) D))).
-  2:{ intros k _. rewrite csumn_add, !csumn_sub. rewrite csumn_mul_r, csumn_mul_l, csumn_mul_l.
-      unfold T2, Cc, D. f_equal. f_equal. rewrite <- csumn_mul_r, <- csumn_mul_r. reflexivity. }
-  rewrite csumn_add, !csumn_sub. rewrite csumn_mul_l, csumn_mul_r, csumn_mul_l, csumn_mul_r.
-  fold D. fold Cc. fold T2.
-  replace (csumn' n (fun k => cmul' (cmul' (rc (t k)) (cconj' (a k))) s)) with (cmul' A s)
-    by (unfold A; rewrite csumn_mul_r; reflexivity).
-  unfold rc. ring_simplify. apply c_eq; csimp; ring.
+  2:{ intros k _. rewrite csumn_add, !csumn_sub.
+      f_equal; [f_equal; [f_equal|]|].
+      - apply csumn_mul_r.
+      - apply csumn_mul_l.
+      - rewrite csumn_mul_r. f_equal. unfold A. apply csumn_mul_r.
+      - apply csumn_mul_l. }
+  rewrite csumn_add, !csumn_sub.
+  rewrite (csumn_mul_l n T2), (csumn_mul_r n Cc), (csumn_mul_r n s), (csumn_mul_l n (cmul' A s)), (csumn_mul_r n D).
+  fold A. fold Cc. fold T2.
+  fold D. clear HT2. clearbody T2 D A Cc. destruct T2, D, A, Cc, s. unfold rc. apply c_eq; csimp; ring.
 Qed.
 
 Section Nonneg.
@@ -176,8 +188,9 @@ Lemma sum_trb_sq : sumn' n (fun k => trb d basis k * trb d basis k) = INR d.
 Proof.
   pose proof (parseval_tr d n Cb Hcomp fid fid) as H.
   rewrite (csumn_ext n _ (fun k => rc (trb d basis k * trb d basis k))) in H.
-  2:{ intros k Hk. rewrite fmul_id_l, fmul_id_r. fold (tC d Cb k). rewrite (tC_real d basis Hherm k Hk).
-      unfold rc. apply c_eq; csimp; ring. }
+  2:{ intros k Hk. transitivity (cmul' (tC d Cb k) (tC d Cb k)).
+      { unfold tC. rewrite fmul_id_l, fmul_id_r. reflexivity. }
+      unfold Cb. rewrite (tC_real d basis Hherm k Hk). unfold rc. apply c_eq; csimp; ring. }
   rewrite fmul_id_l, ftr_fid in H. unfold cnat in H.
   apply (f_equal fst) in H. rewrite csumn_re in H. exact H.
 Qed.
@@ -195,21 +208,16 @@ Proof.
   assert (E : lsumR lds (fun p => integrand_fid RO (infid_ff_general RO d na nk no Bm
                   (traces_diag_arr RO d (pair_products RO d basis) nk)) idx sp (fst p) (snd p) o) =
               / (2 * INR d) * sumn' n (fun k => sumn' n (fun l => fst (Qform sp lds o (Dkl k l) (Dkl k l))))).
-  { unfold Qform.
-    rewrite (sumn_ext n _ (fun k => sumn' n (fun l => lsumR lds (fun p =>
-       fst (cmul' (cmul' (cconj' (Dkl k l (fst p))) (spec_at RO sp (fst p) (snd p) o)) (Dkl k l (snd p)))))))
-      by (intros k _; apply sumn_ext; intros l _; apply lsumC_re).
-    rewrite (sumn_ext n _ (fun k => lsumR lds (fun p => sumn' n (fun l =>
-       fst (cmul' (cmul' (cconj' (Dkl k l (fst p))) (spec_at RO sp (fst p) (snd p) o)) (Dkl k l (snd p)))))))
-      by (intros k _; symmetry; apply lsumR_sumn).
-    rewrite <- lsumR_sumn. rewrite <- lsumR_scal. apply lsumR_ext. intros p Hp.
+  { set (term := fun (p : nat * nat) k l =>
+       cmul' (cmul' (cconj' (Dkl k l (fst p))) (spec_at RO sp (fst p) (snd p) o)) (Dkl k l (snd p))).
+    transitivity (lsumR lds (fun p => / (2 * INR d) * sumn' n (fun k => sumn' n (fun l => fst (term p k l))))).
+    2:{ rewrite lsumR_scal. f_equal. rewrite lsumR_sumn. apply sumn_ext. intros k _.
+        rewrite lsumR_sumn. apply sumn_ext. intros l _. unfold Qform. rewrite lsumC_re. reflexivity. }
+    apply lsumR_ext. intros p Hp.
     apply leads_bound in Hp. destruct Hp as [H1 H2].
-    rewrite <- csumn_re.
-    rewrite (csumn_ext n _ (fun k => rc (sumn' n (fun l =>
-        fst (cmul' (cmul' (cconj' (Dkl k l (fst p))) (spec_at RO sp (fst p) (snd p) o)) (Dkl k l (snd p))))))) by reflexivity.
-    transitivity (/ (2 * INR d) * fst (csumn' n (fun k => csumn' n (fun l =>
-        cmul' (cmul' (cconj' (Dkl k l (fst p))) (spec_at RO sp (fst p) (snd p) o)) (Dkl k l (snd p)))))).
-    2:{ f_equal. rewrite !csumn_re. apply sumn_ext. intros k _. simpl. rewrite csumn_re. reflexivity. }
+    transitivity (/ (2 * INR d) * fst (csumn' n (fun k => csumn' n (fun l => term p k l)))).
+    2:{ f_equal. rewrite csumn_re. apply sumn_ext. intros k _. rewrite csumn_re. reflexivity. }
+    unfold term.
     unfold Dkl. rewrite (lagrange n t (fun k => vk o k (fst p)) (fun k => vk o k (snd p))).
     fold t. replace (sumn' n (fun l => t l * t l)) with (INR d) by (symmetry; apply sum_trb_sq).
     (* left-hand side *)
@@ -248,3 +256,13 @@ Proof.
 Qed.
 
 End Nonneg.
+
+Definition spw_ex : spectrumR := Sp1 [(1,0); (1,0)].
+(* the hypotheses are satisfiable: white spectrum, one operator, grid 0 < 1 *)
+Example psd_example : spectrum_psd spw_ex (leads spw_ex 1) 2 /\ grid_nondecreasing 2 [0; 1].
+Proof.
+  split.
+  - intros o Ho v. unfold Qform, leads, spw_ex. simpl.
+    destruct o as [|[|o]]; try lia; destruct (v 0%nat) as [x y]; csimp; nra.
+  - intros o Ho. destruct o as [|o]; simpl; try lia. lra.
+Qed.
